@@ -90,6 +90,23 @@ dh_modulus_sizes = {"diffie-hellman-group-exchange-sha256": 3072}
 
 def cases(seed, tier):
     n = NCASES[tier]
+    # directed histories: every ordered pair of archetypes on one worker (thorough: all 256, twice; quick: a seeded 96)
+    pairs = [(a, b) for a in KINDS for b in KINDS]
+    if tier != 'thorough':
+        pairs = gen.case_rng(seed, ID, 'pairs').sample(pairs, 96)
+    else:
+        pairs = pairs + pairs
+    for j, (a, b) in enumerate(pairs):
+        rng = gen.case_rng(seed, ID, 'pair', j)
+        targets = [make_target(rng, a, 0), make_target(rng, b, 1)]
+        if tier == 'thorough' and j % 3 == 0:
+            targets.append(make_target(rng, rng.choice(KINDS), 2))
+        mode = ['text', 'json', 'policy', 'policy_json'][j % 4]
+        opts = {'text': ['-n'], 'json': ['-j'], 'policy': ['-n', '-P', '{DIR}/policy.txt'], 'policy_json': ['-j', '-P', '{DIR}/policy.txt']}[mode]
+        c = {'targets': targets, 'mode': mode, 'opts': opts, 'threads': 1, 'sched': {'policy': 'run_to_block', 'seed': j}, 'net': {'rtt_us': 300}, 'pseed': rng.getrandbits(32), 'timeout': 2}
+        if mode.startswith('policy'):
+            c['policy_text'] = POLICY
+        yield c
     for i in range(n):
         rng = gen.case_rng(seed, ID, i)
         k = rng.choice([2, 2, 3]) if tier == 'quick' else rng.choice([2, 3, 3, 4, 5])
@@ -190,6 +207,8 @@ def run_case(case, ctx):
         for p in pairs or [('-', '-')]:
             keys.append(h(p, sig if interleaved else '', case['mode']))
     counters = {'pairs_same_worker': len(pairs), 'interleaved_runs': 1 if interleaved else 0, 'mode_' + mode: 1}
+    for a, b in pairs:
+        counters['pair %s -> %s' % (a, b)] = 1
     return {'violations': out, 'keys': keys, 'counters': counters}
 
 
